@@ -56,6 +56,7 @@ class Sut(object):
         self.stats = audit_stats if audit_stats is not None else Counter()
         self.m.take_groups()
         self.opcount = Counter()
+        self.local = Counter()  # per-case counters (features)
         self.dead = False
 
     # ------------------------------------------------------------------ utils
@@ -116,6 +117,7 @@ class Sut(object):
             self.idmap[gid] = i
             self.rid[i] = gid
         self.stats["created_groups"] += len(groups)
+        self.local["created_groups"] += len(groups)
 
     def _resolves_to_potential(self, lru, out):
         """C06: right after its insertion a page resolves to max(E, K)."""
@@ -327,6 +329,7 @@ class Sut(object):
         )
         m.rules = {a: m.rules[a] for a in m.flags}
         self.stats["reopens"] += 1
+        self.local["reopens"] += 1
 
     # ------------------------------------------------------------------ audit
     def decoded(self):
